@@ -312,6 +312,85 @@ func TestC06Sub(t *testing.T) {
 				canon += "C"
 			},
 		}
+		// A Recv that is already waiting on an empty queue must see publications that match the
+		// subscriptions in force when they arrive — also when the set changed while it waited.
+		acts["recvBlockedAcrossChange"] = func(t *rapid.T) {
+			ci, c := pick("ctx")
+			if c.closed || len(c.cands) > 0 || c.over || len(c.subs) == 0 {
+				t.Skip("needs an open context with subscriptions and an empty queue")
+			}
+			change := rapid.SampledFrom([]string{"unsubscribe", "unsubscribe", "subscribe", "none"}).Draw(t, "change")
+			if change == "unsubscribe" && len(c.subs) < 2 {
+				change = "subscribe"
+			}
+			if err := c.c.SetOption(mangos.OptionRecvDeadline, 3*time.Second); err != nil {
+				t.Fatalf("harness: %v", err)
+			}
+			type rr struct {
+				b   []byte
+				err error
+			}
+			ch := make(chan rr, 1)
+			go func() { b, err := c.c.Recv(); ch <- rr{b, err} }()
+			time.Sleep(5 * time.Millisecond)
+			switch change {
+			case "unsubscribe":
+				i := rapid.IntRange(0, len(c.subs)-1).Draw(t, "which")
+				topic := append([]byte{}, c.subs[i]...)
+				if err := c.c.SetOption(mangos.OptionUnsubscribe, topic); err != nil {
+					fail("unsubscribe-error", "Unsubscribe(%x) on ctx %d while a Recv waits: %v", topic, ci, err)
+					return
+				}
+				c.subs = append(c.subs[:i], c.subs[i+1:]...)
+				logf("recvAsync(ctx%d) unsubscribe(ctx%d,%x)", ci, ci, topic)
+			case "subscribe":
+				topic := genBytes(t, "topic", 3)
+				if err := c.c.SetOption(mangos.OptionSubscribe, topic); err != nil {
+					fail("subscribe-error", "Subscribe(%x) on ctx %d while a Recv waits: %v", topic, ci, err)
+					return
+				}
+				dup := false
+				for _, s := range c.subs {
+					if bytes.Equal(s, topic) {
+						dup = true
+					}
+				}
+				if !dup {
+					c.subs = append(c.subs, append([]byte{}, topic...))
+				}
+				logf("recvAsync(ctx%d) subscribe(ctx%d,%x)", ci, ci, topic)
+			default:
+				logf("recvAsync(ctx%d)", ci)
+			}
+			serial++
+			body := append(append([]byte{}, c.subs[rapid.IntRange(0, len(c.subs)-1).Draw(t, "match")]...), []byte(fmt.Sprintf("|%d", serial))...)
+			pi := rapid.IntRange(0, len(pipes)-1).Draw(t, "pipe")
+			res := pipes[pi].Inject(body, 3*time.Second)
+			logf("publish(pipe%d,%x)=%d", pi, body, res)
+			if res != vt.InjProcessed {
+				fail("receiver-stalled", "SUB receiver did not process a publication within 3s (result %d)", res)
+				return
+			}
+			for _, o := range ctxs {
+				if o != c && !o.closed && o.matches(body) {
+					o.cands = append(o.cands, body)
+					if len(o.cands) > qlen {
+						o.over = true
+					}
+				}
+			}
+			canon += "B" + change[:1]
+			select {
+			case r := <-ch:
+				logf("  waiting recv(ctx%d)=(%x,%v)", ci, r.b, r.err)
+				if r.err != nil || !bytes.Equal(r.b, body) {
+					fail("blocked-recv-wrong", "ctx %d (subscriptions %x): a Recv that was waiting while the subscriptions changed (%s) returned (%x,%v), want the matching publication %x", ci, c.subs, change, r.b, r.err, body)
+				}
+			case <-time.After(4 * time.Second):
+				fail("blocked-recv-missed", "ctx %d (subscriptions %x): a Recv that was waiting while the subscriptions changed (%s) did not return the matching publication %x", ci, c.subs, change, body)
+			}
+			stats.Class("recv_blocked_across_" + change)
+		}
 		acts["publish2"] = acts["publish"]
 		acts["publish3"] = acts["publish"]
 		acts["publish4"] = acts["publish"]
@@ -619,6 +698,79 @@ func TestC06StalledSubscriber(t *testing.T) {
 			stats.Eval()
 			stats.Class("stalled_subscriber:" + tr)
 			stats.NonTrivial(fmt.Sprintf("S|%s|%s|%d|%d|%d|%d|%d", pubName, tr, wq, nhealthy, nstalled, nmsg, size))
+			stats.Sample(doc)
+		})
+	})
+}
+
+// TestC06IdleDelivery: every accepted write-queue length, 0 included, lets a publication through
+// to a subscriber whose connection is idle ("queue space permitting" can only excuse a loss when
+// something is queued or in transmission).  Publications go out one at a time, each after every
+// subscriber has received the previous one and a short pause; a loss counts only if it shows in
+// three consecutive executions of the same case.
+func TestC06IdleDelivery(t *testing.T) {
+	stats.ScaledChecks(12, 4, func() {
+		rapid.Check(t, func(t *rapid.T) {
+			pubName := rapid.SampledFrom([]string{"pub", "xpub"}).Draw(t, "pub")
+			tr := rapid.SampledFrom([]string{"inproc", "tcp", "ipc"}).Draw(t, "transport")
+			wq := rapid.SampledFrom([]int{0, 0, 1}).Draw(t, "writeq")
+			nsub := rapid.IntRange(1, 3).Draw(t, "subscribers")
+			nmsg := rapid.IntRange(5, 20).Draw(t, "nmsg")
+			doc := map[string]interface{}{"test": "TestC06IdleDelivery", "pub": pubName, "transport": tr, "writeq": wq, "subscribers": nsub, "nmsg": nmsg, "rseed": os.Getenv("VERIF_RSEED")}
+			attempt := func() (string, bool) {
+				p := fixture.New(pubName)
+				defer p.Close()
+				if err := p.SetOption(mangos.OptionWriteQLen, wq); err != nil {
+					t.Fatalf("harness: %v", err)
+				}
+				pe := fixture.Hook(p)
+				addr, _, err := fixture.Listen(p, tr)
+				if err != nil {
+					t.Skip("port busy")
+				}
+				var subs []mangos.Socket
+				for i := 0; i < nsub; i++ {
+					s := fixture.New("sub")
+					defer s.Close()
+					_ = s.SetOption(mangos.OptionSubscribe, "")
+					_ = s.SetOption(mangos.OptionRecvDeadline, time.Second)
+					se := fixture.Hook(s)
+					if _, err := fixture.Dial(s, addr); err != nil {
+						t.Fatalf("harness: %v", err)
+					}
+					if !se.WaitAttached(1, 5*time.Second) || !pe.WaitAttached(i+1, 5*time.Second) {
+						t.Fatalf("harness: attach timeout")
+					}
+					subs = append(subs, s)
+				}
+				time.Sleep(5 * time.Millisecond)
+				for i := 0; i < nmsg; i++ {
+					body := []byte(fmt.Sprintf("idle-%04d", i))
+					if err := p.Send(body); err != nil {
+						return fmt.Sprintf("publish %d: %v", i, err), false
+					}
+					for si, s := range subs {
+						got, err := s.Recv()
+						if err != nil || !bytes.Equal(got, body) {
+							return fmt.Sprintf("subscriber %d of %d did not receive publication %d (got %q, %v) although its connection was idle", si, nsub, i, got, err), false
+						}
+					}
+					time.Sleep(3 * time.Millisecond)
+				}
+				return "", true
+			}
+			var msg string
+			ok := false
+			for k := 0; k < 3 && !ok; k++ {
+				msg, ok = attempt()
+			}
+			if !ok {
+				stats.Fail(t, "C06:idle-delivery", doc, "%s over %s with WRITEQ-LEN %d (3 of 3 executions): %s", pubName, tr, wq, msg)
+				return
+			}
+			stats.Eval()
+			stats.Class(fmt.Sprintf("idle_delivery_wq%d", wq))
+			stats.NonTrivial(fmt.Sprintf("I|%s|%s|%d|%d|%d", pubName, tr, wq, nsub, nmsg))
 			stats.Sample(doc)
 		})
 	})
